@@ -38,6 +38,8 @@ def run(ck, ctx):
                      "(`#[serde(skip)]` on a field of a CRDT - e.g. the OR-Set's tag counter - makes the decoded value behave differently "
                      "from the encoded one although it compares equal)")
     ck.rule("R14.13", READER_TEXT)
+    from . import c10 as _c10j
+    ck.rule("R14.16", _c10j.JUDGE_TEXT + " (shared with C10 R10.11: what was written intact must be read back)")
     ck.rule("R14.15", "field coverage of every encoded type is the derive's: Serialize/Deserialize of the persisted and gossiped types are the "
                       "derive-generated impls (whose field counts R14.8 checks); the only hand-written pair is SDS (R14.5). A hand-written impl "
                       "for any other type is reported - it can leave a field out and rebuild it from another one on decode (e.g. a delta's "
@@ -71,6 +73,8 @@ def run(ck, ctx):
         _r149(ck, prog, cfg)
         reader_rule(ck, prog, cfg, "R14.13")
         _r1415(ck, prog, cfg)
+        from . import c10 as _c10q
+        _c10q.r1011(ck, prog, cfg, "R14.16")
         from . import c10 as _c10r
         _c10r.r109(ck, prog, cfg, "R14.14", file="src/streaming/segment.rs", owners=("SegmentReader", "DeltaIterator"), what="segment reader", floor=5)
         _r1411(ck, prog, cfg)
